@@ -48,6 +48,7 @@ TStep == /\ l <= Len(Tr.events)
                \/ e.op = "heldget"    /\ (IF HeldOK(e.h, e.i) THEN HeldGet1(e.h, e.i) /\ got' = e.got ELSE Stale(e))
                \/ e.op = "heldset"    /\ (IF HeldOK(e.h, e.i) THEN HeldSet1(e.h, e.i, e.w) ELSE Stale(e))
                \/ e.op = "heldremove" /\ (IF HeldOK(e.h, e.i) THEN HeldRemove1(e.h, e.i) ELSE Stale(e))
+               \/ e.op \in {"badappend", "badreplace", "badrefset"} /\ Bad1(e.h, e.op, e.res)     \* refused, nothing changes anywhere
                \/ e.op = "sep"        /\ Sep1(e.h)
                \/ e.op = "nl"         /\ Nl1(e.h, e.res)
                \/ e.op = "cmt"        /\ Cmt1(e.h)
